@@ -86,6 +86,9 @@ class Sched(object):
         self.stuck_info = None
         self.running = False
         self.unexpected = []     # unexpected exceptions that killed adopted threads
+        self._lp = None          # line pre-emption: (path parts, mean distance in lines), see enable_line_preemption
+        self._lp_left = 0
+        self.line_yields = 0
 
     # ------------------------------------------------------------------
     def _me(self):
@@ -97,6 +100,36 @@ class Sched(object):
     def current_proc(self):
         t = self.by_ident.get(_thread.get_ident())
         return t.proc if t is not None else None
+
+    # -- pre-emption inside pure Python code ---------------------------------
+    def enable_line_preemption(self, path_parts, every):
+        """line events (sys.settrace) of code whose file name contains one of `path_parts` become pre-emption points of the
+        tasks started from now on, on average one in `every` lines (distances drawn from the tape): a thread switch between
+        two statements of the code under test, where no system call or queue operation would offer one"""
+        self._lp = (tuple(path_parts), int(every))
+        self._lp_left = self.tape.randint(1, 2 * int(every))
+
+    def _trace_global(self, frame, event, arg):
+        if event == 'call' and self._lp is not None:
+            fn = frame.f_code.co_filename
+            for part in self._lp[0]:
+                if part in fn:
+                    return self._trace_local
+        return None
+
+    def _trace_local(self, frame, event, arg):
+        if event == 'line' and not self.aborting:
+            self._lp_left -= 1
+            if self._lp_left <= 0:
+                self._lp_left = self.tape.randint(1, 2 * self._lp[1])
+                self.line_yields += 1
+                self.yield_point('line', frame.f_lineno)
+        return self._trace_local
+
+    def _install_trace(self):
+        if self._lp is not None:
+            import sys
+            sys.settrace(self._trace_global)
 
     # -- task creation -------------------------------------------------
     def spawn(self, fn, name, proc):
@@ -115,6 +148,7 @@ class Sched(object):
         task.started = True
         try:
             if not self.aborting and not task.proc.dead:
+                self._install_trace()
                 task.result = task.fn()
         except SimAbort:
             pass
@@ -139,6 +173,7 @@ class Sched(object):
             task.started = True
             try:
                 if not self.aborting and not task.proc.dead:
+                    self._install_trace()
                     orig_run()
             except (SimAbort, SimCrash):
                 pass
@@ -423,6 +458,17 @@ class SimQueue(object):
     def empty(self):
         self.sched.yield_point('q-empty', self.qid)
         return not self.items
+
+    def full(self):
+        self.sched.yield_point('q-full', self.qid)
+        return self.maxsize > 0 and len(self.items) >= self.maxsize
+
+    @property
+    def unfinished_tasks(self):
+        # queue.Queue's public counter (put() increments it, task_done() decrements it)
+        if self.sched is not None and self.sched.in_task():
+            self.sched.yield_point('q-unfinished', self.qid)
+        return self.unfinished
 
     def put(self, item, block=True, timeout=None):
         self.sched.yield_point('q-put', self.qid)
